@@ -64,6 +64,15 @@ def run(ck):
         if kind == "seq":
             ok = all(v < (1 << int(o.split()[1])) for o in N if o.startswith("decomp") and int(o.split()[1]) <= 254)
             jobs.append((name, snap, None)); expect[name] = ok; info[name] = ("several components on one witness", 0, v)
+            # every truncation returns ITS OWN width's value, whatever was computed for this witness before
+            if all(o.startswith("trunc") for o in N):
+                outs = [int(r_[0]) for r_ in res[1:] if r_ and r_[0].isdigit()]
+                for o, wi in zip(N, outs):
+                    nb = int(o.split()[1])
+                    if wi < len(snap.wits) and snap.wits[wi] != v % (1 << nb):
+                        ck.violation(f"in the sequence {list(N)} on one witness {v:#x}, truncate::<{nb}> returned {snap.wits[wi]:#x}, not the value mod 2^{nb}",
+                                     {"failing_input_found": True, "program": progs[name]}, key=f"seq-value:{nb}")
+                        break
             continue
         if kind == "trunc":
             jobs.append((name, snap, None)); expect[name] = True         # satisfiable for every input
